@@ -109,8 +109,8 @@ def h_request_line(line: str):
         assert exc is not None, "a malformed request line was accepted"
 
 
-@harness(pre=pre_line, quick=dict(L=13, timeout=200, reach_timeout=200), thorough=dict(L=15, timeout=1200, reach_timeout=300),
-         nshards=dict(quick=1, thorough=4), reach=["accepted", "with_reason"],
+@harness(pre=pre_line, quick=dict(L=14, timeout=300, reach_timeout=200), thorough=dict(L=16, timeout=1200, reach_timeout=300),
+         nshards=dict(quick=2, thorough=4), reach=["accepted", "with_reason"],
          units=["httputil.parse_response_start_line", "httputil._ABNF.status_line"],
          stubs=[], outside=["lines longer than L code points (Engine B covers the regex for every length)"])
 def h_status_line(line: str):
